@@ -279,6 +279,14 @@ class ClientSys:
         s.options.audio_buses = 64
         s.options.buffers = 32
         s._new_allocators()
+        # a second, non-default server object (buffers created on it own
+        # numbers of ITS allocator and give them back to it)
+        if 's2' not in _G:
+            from sc3.base.netaddr import NetAddr
+            _G['s2'] = Server('c17b', NetAddr('127.0.0.1', 57111))
+        self.s2 = _G['s2']
+        self.s2.options.buffers = 32
+        self.s2._new_allocators()
         Buffer._server_caches.clear()
         self.main = main
         # capture point: everything that enters the NRT score, in issue order
@@ -419,7 +427,7 @@ class ClientSys:
             return o + self._narrow_ops()
         if 'node' in self.fams:
             o += self._node_ops()
-        if 'buf' in self.fams:
+        if 'buf' in self.fams or 'buf2' in self.fams:
             o += self._buf_ops()
         if 'bus' in self.fams:
             o += self._bus_ops()
@@ -577,11 +585,17 @@ class ClientSys:
             for n in (2, 3):
                 o += [['b_consec', n, True], ['b_consec', n, False]]
             o += [['b_read'], ['b_cue'], ['b_new_alloc']]
+            if 'buf2' in self.fams and self.cm is None:
+                # (a bind() block belongs to ONE server: commands of the
+                # other server are not part of it - not modelled)
+                o += [['b2_new', 1024, 1], ['b2_consec', 2], ['b2_read']]
             # the only constructor taking the keyword is Buffer(...) itself
             o += [['b_new', 1024, 1, 'none', False],
                   ['b_new', 512, 2, 'fn', False], ['b_new_alloc', False]]
         for e, ent in enumerate(self.bufs):
             if ent['state'] == 'stale':
+                continue
+            if ent.get('srv', 0) == 1 and self.cm is not None:
                 continue
             for compl in ('none', 'static', 'fn'):
                 o.append(['b_free', e, compl])
@@ -727,7 +741,10 @@ class ClientSys:
         for kind, alloc, live in (
                 ('buf', s._buffer_allocator,
                  [(e['ids'][0], len(e['ids'])) for e in self.bufs
-                  if e['state'] == 'live']),
+                  if e['state'] == 'live' and e.get('srv', 0) == 0]),
+                ('buf-second-server', self.s2._buffer_allocator,
+                 [(e['ids'][0], len(e['ids'])) for e in self.bufs
+                  if e['state'] == 'live' and e.get('srv', 0) == 1]),
                 ('cbus', s._control_bus_allocator,
                  [(b['idx'], b['ch']) for b in self.buses
                   if b['state'] == 'live' and b['rate'] == 'c']),
@@ -1083,7 +1100,7 @@ class ClientSys:
                 'expect': [['/n_order', ACTION[act], tid] + ids]}
 
     # ---- buffers --------------------------------------------------------------
-    def _new_bufs(self, objs, consecutive=False, cached=True):
+    def _new_bufs(self, objs, consecutive=False, cached=True, srv=0):
         ids = [getattr(b, 'bufnum', None) for b in objs]
         if not all(isinstance(i, int) and not isinstance(i, bool)
                    for i in ids):
@@ -1091,13 +1108,13 @@ class ClientSys:
         if consecutive and ids != list(range(ids[0], ids[0] + len(ids))):
             raise _Disagree('own-id:buf', 'consecutive buffer numbers', ids)
         live = {i for e in self.bufs if e['state'] == 'live'
-                for i in e['ids']}
+                and e.get('srv', 0) == srv for i in e['ids']}
         if live & set(ids) or len(set(ids)) != len(ids):
             raise _Disagree('id-collision:buf',
                             f'numbers not owned by a live buffer '
                             f'({sorted(live)})', ids)
         self.bufs.append({'objs': list(objs), 'ids': ids, 'state': 'live',
-                          'cached': cached})
+                          'cached': cached, 'srv': srv})
         self._bump(('b', len(self.bufs) - 1))
         return ids
 
@@ -1145,6 +1162,37 @@ class ClientSys:
             bid = self._new_bufs([obj], cached=cache)[0]
             return [['/b_alloc', bid, 256, 1, OPT]]
         return {'call': call, 'expect': expect}
+
+    def _op_b2_new(self, frames, ch):
+        from sc3.synth.buffer import Buffer
+
+        def expect(obj):
+            bid = self._new_bufs([obj], srv=1)[0]
+            return [['/b_alloc', bid, frames, ch, OPT]]
+        return {'call': lambda: Buffer(frames, ch, self.s2),
+                'expect': expect}
+
+    def _op_b2_consec(self, n):
+        from sc3.synth.buffer import Buffer
+
+        def expect(objs):
+            if not isinstance(objs, list) or len(objs) != n:
+                raise _Disagree('own-id:buf', f'a list of {n} buffers',
+                                repr(objs))
+            ids = self._new_bufs(objs, consecutive=True, srv=1)
+            return [['/b_alloc', i, 512, 1, OPT] for i in ids]
+        return {'call': lambda: Buffer.new_consecutive(n, 512, 1, self.s2),
+                'expect': expect, 'unordered': True}
+
+    def _op_b2_read(self):
+        from sc3.synth.buffer import Buffer
+
+        def expect(obj):
+            bid = self._new_bufs([obj], srv=1)[0]
+            return [['/b_allocRead', bid, PATH, 0, -1,
+                     {'blob': [['/b_query', bid]]}]]
+        return {'call': lambda: Buffer.new_read(PATH, server=self.s2),
+                'expect': expect}
 
     def _op_b_consec(self, n, explicit):
         from sc3.synth.buffer import Buffer
@@ -1216,6 +1264,8 @@ class ClientSys:
         def expect(_):
             out = []
             for e, ent in enumerate(self.bufs):
+                if ent.get('srv', 0) != 0:
+                    continue    # free_all() is per server (default server)
                 if ent['state'] == 'live':
                     out += [['/b_free', i, OPT] for i in ent['ids']]
                     ent['state'] = 'stale'
@@ -1416,6 +1466,8 @@ class ClientSys:
                                                   self.pending],
             'next_node': nxt,
             'alloc': [alloc_state(s._buffer_allocator),
+                      alloc_state(self.s2._buffer_allocator),
+                      [e.get('srv', 0) for e in self.bufs],
                       alloc_state(s._control_bus_allocator),
                       alloc_state(s._audio_bus_allocator)],
         }
@@ -1639,6 +1691,7 @@ def main(ctx):
         'the real allocators\' blocks() report the used blocks']
     fam_node = {'fams': ['node'], 'max': {'group': 2, 'synth': 2}}
     fam_buf = {'fams': ['buf'], 'max': {'buf': 2}}
+    fam_buf2 = {'fams': ['buf2'], 'max': {'buf': 2}}
     fam_bus = {'fams': ['bus', 'node'],
                'max': {'bus': 2, 'group': 0, 'synth': 1}}
     mixed = {'fams': ['node', 'buf', 'bus'],
@@ -1654,12 +1707,14 @@ def main(ctx):
     n_buf = narrow(fam_buf, {'buf': 3})
     n_mixed = narrow(mixed, {'group': 1, 'synth': 1, 'buf': 1, 'bus': 1})
     if ctx.tier == 'quick':
-        plan = [(fam_node, 4), (fam_buf, 4), (fam_bus, 4), (mixed, 3),
+        plan = [(fam_node, 4), (fam_buf, 4), (fam_buf2, 3), (fam_bus, 4),
+                (mixed, 3),
                 (opened(fam_node), 3), (opened(fam_buf), 3),
                 (opened(fam_bus), 3), (opened(mixed), 3),
                 (n_node, 5), (n_buf, 5), (n_mixed, 4)]
     else:
-        plan = [(fam_node, 4), (fam_buf, 5), (fam_bus, 5), (mixed, 4),
+        plan = [(fam_node, 4), (fam_buf, 5), (fam_buf2, 4), (fam_bus, 5),
+                (mixed, 4),
                 (opened(fam_node), 3), (opened(fam_buf), 4),
                 (opened(fam_bus), 4), (opened(mixed), 3),
                 (n_node, 6), (n_buf, 6), (n_mixed, 6)]
